@@ -99,3 +99,8 @@ Theorem C16_no_keyerror :
   forall U log c, exists T' v, run_cmd U (replay U log) c = Ret T' v.
 Proof. exact no_keyerror. Qed.
 Print Assumptions C16_no_keyerror.
+
+Theorem C16_snapshot_transparent :
+  forall U p s, replay U (p ++ s) = run_log U (replay U p) s.
+Proof. exact replay_app. Qed.
+Print Assumptions C16_snapshot_transparent.
